@@ -1,3 +1,3 @@
 From Verif Require Import Extract.C03.
 Require Import ExtrOcamlBasic.
-Extraction "c03_model.ml" c03_simplify c03_run c03_run_with c03_sat_all c03_zpush c03_zneg c03_z_to_n.
+Extraction "c03_model.ml" c03_simplify c03_run c03_run_with c03_sat_all c03_all_safe c03_zpush c03_zneg c03_z_to_n.
